@@ -73,6 +73,7 @@ static thrd_ret_t THREAD_CALL_CONV parallel_thread_run(void *rid_arg)
 			process_msg();
 
 		simtime_t current_gvt = gvt_phase_run();
+		VERIF_YIELD(current_gvt != 0.0 ? 11 : 10);
 		if(unlikely(current_gvt != 0.0)) {
 			VERIF_TRACE(VT_GVT, verif_bits(current_gvt), 0, 0, 0);
 			termination_on_gvt(current_gvt);
